@@ -13,7 +13,7 @@ assignments."""
 import itertools
 import json
 
-from mc import seams
+from mc import refs, seams
 from mc.canon import canon
 from mc.runner import Part, Res, digest
 from props import secdom
@@ -141,6 +141,12 @@ class Forms(Part):
                     pats = [("ab", (A, B), (B, A))] if f["slots"] == 2 else [("a", (A,), (B,))]
                     if f["slots"] == 2:
                         pats.append(("aa", (A, A), (B, B)))
+                        if cls == "juniper9" and pi == 0:
+                            # a $9$ string and the same string with its last character lost are two
+                            # different secrets, like any other pair of distinct $9$ strings
+                            X = refs.j9_encode("hunter0", "k", "abc")
+                            pats.append(("trunc", (X, X[:-1]), (X, B)))
+                            pats.append(("trunc2", (X[:-1], X), (A, X)))
                     for pname, sa, sb in pats:
                         if only and only[:4] != [cls, sl, pi, pname]:
                             continue
